@@ -256,7 +256,10 @@ def check_wiring(report, facts, rule, compressed, doc_text):
                                 'mnemonic table {} is never consulted by parse_item: {} cannot be written'.format(tname, mns),
                                 line=fn_line(facts, 'parse_item')))
             continue
-        rets = [o for o in outs if o.kind == 'return' and o.cls != 'PseudoInstruction']
+        # the items this rule is about: instruction items.  A label / constant / directive built on a path that happens to know the
+        # mnemonic (the format looked up before the chain of arms starts: `c.mv = 5` is a constant definition) is another rule's matter
+        rets = [o for o in outs if o.kind == 'return' and o.cls != 'PseudoInstruction'
+                and not (o.cls in facts.classes and not facts.is_subclass(o.cls, 'Instruction'))]
         if not rets:
             not_consulted('the arm for {} builds no instruction item'.format(tname))
             report.fail(Finding(rule, 'parse_item', 'no constructor for ' + tname,
